@@ -61,7 +61,7 @@ def calls_on_field(b, callee_re, adt_suffix, field):
     return out
 
 
-@rule('REC1', ['C02', 'C08', 'C12'], floor=1, template='guard-dominates-use')
+@rule('REC1', ['C02', 'C08', 'C12', 'C18'], floor=1, template='guard-dominates-use')
 def rec1(ctx):
     """Frame payloads are appended to the entry buffer only while inside an entry."""
     bs = rec_bodies(ctx)
@@ -90,7 +90,7 @@ def rec2(ctx):
                       'error exit (%s) does not reset within_record: the next frames would be appended to the abandoned entry and an entry with a hole delivered' % v)
 
 
-@rule('REC3', ['C02', 'C08', 'C12'], floor=1, template='guard-dominates-exit')
+@rule('REC3', ['C02', 'C08', 'C12', 'C18'], floor=1, template='guard-dominates-exit')
 def rec3(ctx):
     """An entry is delivered only after a Last frame, while inside an entry."""
     for b in rec_bodies(ctx):
@@ -839,3 +839,65 @@ def fr8b(ctx):
     # the frame reader consumes the block-advance result (helpers in between may come and go)
     if n < 2 or not seen_rr:
         ctx.missing('sites', 'expected the record reader -> frame reader and frame reader -> block advance error hand-overs, found %d site(s)' % n)
+
+
+@rule('FR10', ['C08', 'C12'], floor=1, template='guard-dominates-exit')
+def fr10(ctx):
+    """A frame is accepted only if its checksum matches: `Header::check` answers true only under the equality of the
+    computed checksum with the stored one -- no shortcut for "nothing to protect" (empty frames carry a frame type,
+    and a forged empty First frame opens an entry that an intact Last frame completes)."""
+    ck = ctx.fn('frame::header::Header::check')
+    if not ck:
+        ctx.missing('check', 'Header::check not found')
+        return
+    # with local helpers in place (`is_block_filler()`, a renamed checksum function ..)
+    b = ctx.f.inlined(ck[0], lambda cb: not ('crc32fast' in cb.path) and len(cb.blocks) < 80, 'fr10')
+    fl = flow_of(b)
+    crc_nodes = set()
+    for cs in b.calls:
+        if 'crc32fast::Hasher' in cs.name and cs.name.endswith('::finalize'):
+            crc_nodes |= fl.forward(set(fl.call_result_nodes(cs)))
+        elif cs.node is not None and ctx.f.bodies[cs.node].ret_ty == 'u32':
+            crc_nodes |= fl.forward(set(fl.call_result_nodes(cs)))
+    def is_crc_eq(rv):
+        return rv['k'] == 'binop' and rv['op'] in ('Eq',) and ((fl.op_tainted(rv['a'], crc_nodes) and 'Header.checksum' in str(fl.backward(set(fl.op_nodes(rv['b']))))) or
+                                                                  (fl.op_tainted(rv['b'], crc_nodes) and 'Header.checksum' in str(fl.backward(set(fl.op_nodes(rv['a']))))))
+    eq_true_edges = []
+    for bi, blk in enumerate(b.blocks):
+        if not b.live[bi] or blk['term']['k'] != 'switch':
+            continue
+        c = b.switch_cond(bi)
+        if c and c['kind'] == 'bool':
+            for o in c['origin']:
+                if o[0] == 'rv' and is_crc_eq(o[2]):
+                    e = b.bool_edges(bi)
+                    if e:
+                        eq_true_edges.append(e[0] if not c.get('neg') else e[1])
+    n = 0
+    for (p, kind, data) in b.defs.get(0, []):
+        if not b.is_live_point(p):
+            continue
+        if kind == 'call':
+            # the answer delegated to another predicate (`payload.is_empty()`): only under the matching-checksum edge
+            n += 1
+            ctx.check(any(b.edge_dominates(e, p) for e in eq_true_edges), 'check:true-only-if-crc-matches#%d' % n, where(b, p), 'the answer is the checksum comparison (or false)',
+                      'Header::check can answer true without the computed checksum having matched the stored one: damaged bytes would be accepted as a frame')
+            continue
+        if kind != 'assign' or data['place']['p']:
+            continue
+        n += 1
+        rv = data['rv']
+        ok = False
+        if is_crc_eq(rv):
+            ok = True
+        elif rv['k'] == 'use' and op_const_bits(rv['op']) == 0:
+            ok = True
+        elif rv['k'] == 'use' and op_local(rv['op']) is not None:
+            org = b.trace_local(op_local(rv['op']))
+            ok = bool(org) and all(o[0] == 'rv' and is_crc_eq(o[2]) for o in org)
+        if not ok:
+            ok = any(b.edge_dominates(e, p) for e in eq_true_edges)
+        ctx.check(ok, 'check:true-only-if-crc-matches#%d' % n, where(b, p), 'the answer is the checksum comparison (or false)',
+                  'Header::check can answer true without the computed checksum having matched the stored one: damaged bytes would be accepted as a frame')
+    if n == 0:
+        ctx.missing('answers', 'no assignment of the result found in Header::check')
